@@ -331,6 +331,9 @@ func (s Schema) jsonTree(t Term, format, refPrefix string) *om {
 
 // DefaultValue is the JSON value declared as default of t.
 func (s Schema) DefaultValue(t Term) any {
+	if v, ok := hookDefault(s, t); ok {
+		return v
+	}
 	switch t.Default {
 	case "scalar":
 		switch t.K {
@@ -525,7 +528,9 @@ func (s Schema) cueType(t Term, usesStrings *bool) string {
 			out = strings.TrimSuffix(strings.TrimPrefix(out, "("), ") | null") + " | null"
 		}
 	}
-	if t.Default != "" {
+	if o, ok := hookCueDefault(s, t, out); t.Default != "" && ok {
+		out = o
+	} else if t.Default != "" {
 		d := cueLit(s.DefaultValue(t))
 		if strings.Contains(out, "|") || strings.Contains(out, "&") {
 			out = "(" + out + ") | *" + d
